@@ -290,6 +290,8 @@ class Rat:
         return self.n * o.d == o.n * self.d
 
     def __hash__(self):
+        if self.is_const():
+            return hash(self.const())          # equal to a Python number -> same hash (as NumPy scalars), so sets and dict keys agree
         return hash(self.canon())
 
     def symbols(self):
